@@ -216,6 +216,74 @@ def prior_body_factory(ctx):
     return body
 
 
+# ----------------------------------------------------------------------------- the JokerPrior.default() factory
+@st.composite
+def default_cases(draw):
+    poly = draw(st.integers(1, 3))
+    fault = draw(st.sampled_from(["none", "none", "sigma_v", "sigma_v", "sigma_K0", "P_min", "P_max", "s", "sigma_v_count"]))
+    return {"poly": poly, "fault": fault, "choice": draw(st.integers(0, 5)), "which": draw(st.integers(0, poly - 1)),
+            "as": draw(st.sampled_from(["list", "dict"])), "vel": draw(st.sampled_from(["km/s", "m/s"])),
+            "noff": draw(st.integers(0, 2))}
+
+
+def default_body_factory(ctx):
+    import astropy.units as u
+    import pymc as pm
+
+    import thejoker as tj
+    import thejoker.units as xu
+
+    def body(case):
+        poly, fault = case["poly"], case["fault"]
+        vel = u.Unit(case["vel"])
+        sig = [(10.0 ** (1 - 2 * i)) * vel / u.day ** i for i in range(poly)]
+        kw = dict(P_min=2 * u.day, P_max=1.5 * u.year, sigma_K0=25 * vel, poly_trend=poly)
+        wrong_dim = [u.km, u.day, u.kg, u.one, u.rad, 1 / u.day]
+        w = wrong_dim[case["choice"] % len(wrong_dim)]
+        if fault == "sigma_v":
+            i = case["which"]
+            # a width of the wrong physical type for v_i: not a velocity per day^i
+            menu = [u.km, u.day, u.one, vel / u.day ** (i + 1), vel * u.day, (vel / u.day ** (i - 1)) if i >= 1 else u.km / u.s ** 2]
+            sig[i] = 3.0 * menu[case["choice"] % len(menu)]
+        elif fault == "sigma_K0":
+            kw["sigma_K0"] = 25 * w
+        elif fault == "P_min":
+            kw["P_min"] = 2 * [u.km, vel, u.one, u.rad, u.kg, 1 / u.day][case["choice"] % 6]
+        elif fault == "P_max":
+            kw["P_max"] = 400 * [u.km, vel, u.one, u.rad, u.kg, 1 / u.day][case["choice"] % 6]
+        elif fault == "s":
+            kw["s"] = 0.5 * [u.km, u.day, u.one, u.rad, vel / u.day, u.kg][case["choice"] % 6]
+        if fault == "sigma_v_count" and poly >= 2:
+            sig = sig[:-1]
+        if case["as"] == "dict" and fault != "sigma_v_count":
+            kw["sigma_v"] = {"v%d" % i: sg for i, sg in enumerate(sig)}
+        else:
+            kw["sigma_v"] = sig[0] if (poly == 1 and len(sig) == 1) else sig
+        exc, prior = None, None
+        try:
+            with pm.Model() as model:
+                offs = [xu.with_unit(pm.Normal("dv0_%d" % (i + 1), 0, 5.0), vel) for i in range(case["noff"])]
+                prior = tj.JokerPrior.default(v0_offsets=offs or None, model=model, **kw)
+        except Exception as e:
+            exc = e
+        invalid = fault not in ("none",) and not (fault == "sigma_v_count" and poly < 2)
+        if not invalid:
+            if exc is not None:
+                raise Violation("JokerPrior.default rejected valid arguments: %s: %s" % (type(exc).__name__, str(exc)[:200]), kw=repr(kw)[:300])
+            units = prior.par_units
+            for i in range(poly):
+                if not units["v%d" % i].is_equivalent(vel / u.day ** i):
+                    raise Violation("default prior declares v%d in %s" % (i, units["v%d" % i]))
+            ctx.note_case(case, poly > 1, ["default:valid", "default:sigma_v as " + case["as"]])
+            return
+        if exc is None:
+            raise Violation("JokerPrior.default accepted an argument of the wrong physical type (it would be silently re-interpreted)",
+                            fault=fault, kw=repr(kw)[:400], declared_units={k: str(v) for k, v in prior.par_units.items()})
+        ctx.note_case(case, True, ["default:" + fault])
+
+    return body
+
+
 # ----------------------------------------------------------------------------- data arguments
 DATA_KINDS = ["single", "list", "tuple", "dict", "generator", "list_with_str", "list_with_cov", "single_cov", "int", "none",
               "list_dup_obj", "dict_int_keys"]
@@ -319,3 +387,4 @@ def data_body_factory(ctx):
 def run(ctx):
     ctx.search("priors", prior_cases(), prior_body_factory(ctx), quick=2400, thorough=30000, shrink=True)
     ctx.search("data", data_cases(), data_body_factory(ctx), quick=600, thorough=12000)
+    ctx.search("default_factory", default_cases(), default_body_factory(ctx), quick=300, thorough=6000)
